@@ -23,3 +23,7 @@ claim("C12",
 
 # everything else that is planned but has no check yet
 PLANNED = ["C%02d" % k for k in range(1, 30)]
+claim("C11",
+      "String-like and typed arrays with every content byte symbolic (ill-formed UTF-8 included), every chunking into <= 2 chunks (zero-length included) and every split of a chunk's bytes into <= 2 data events, through the real rules validator; z3 shows accepted <=> every chunk is valid UTF-8 on its own, and typed arrays are accepted for every split; count mismatches and non-final last chunks are rejected.",
+      "Oracle: unicode/utf8.Valid per chunk (executed symbolically). Bounds: content <= 4 bytes quick / 5 thorough; media type and remote reference go through the same string rule and are not generated separately.",
+      "DESIGN.md §5 C11")
